@@ -156,6 +156,28 @@ def gen_stack_cases(rng, tier):
     for i in range(4 if tier == "quick" else 40):
         junk = bytes(rng.randrange(256) for _ in range(rng.randrange(1, 200)))
         cases.append(["hostile role=s,type=PULL %s %s" % (E.hexspec(junk), rng.choice(["-", "1", "3,9"]))])
+    # an UNAUTHENTICATED peer talking to a CURVE / NOISE / PLAIN server: whatever its first handshake commands contain
+    def md(key, value):
+        return bytes([len(key)]) + key + struct.pack(">I", len(value)) + value
+    hello_bodies = [
+        b"\x05HELLO" + md(b"Public-Key-Client", bytes(32)),
+        b"\x05HELLO" + md(b"\xff\xfe", b"x"),                       # a metadata name that is not UTF-8
+        b"\x05HELLO" + md(b"Public-Key-Client", b"short"),
+        b"\x05HELLO" + bytes([200]) + b"abc",                        # name length beyond the frame
+        b"\x05HELLO" + md(b"k", b"")[:-2],                           # value length cut off
+        b"\x05HELLO",
+        b"\x05HELL",
+        b"\x08INITIATE" + md(b"\xc3\x28", b"y"),                    # INITIATE before HELLO, invalid UTF-8
+        b"\x07WELCOME" + md(b"a", b"b"),
+        b"\x05READY" + md(b"Socket-Type", b"PUSH"),
+    ]
+    for mech, key in (("CURVE", "curve=1"), ("NOISE_XX", "noise=1")):
+        bodies = hello_bodies if tier != "quick" else rng.sample(hello_bodies, 5) + [hello_bodies[1]]
+        for body in bodies:
+            stream = E.greeting_v3(mech) + E.frame(body, command=True)
+            if rng.random() < 0.5:
+                stream += mutate(rng, E.frame(body, command=True))
+            cases.append(["hostile role=s,type=PULL,%s %s %s" % (key, E.hexspec(stream), rng.choice(["-", "64", "70,5"]))])
     return cases
 
 
